@@ -880,6 +880,7 @@ impl<'a, R: 'a + Read> Read for CompressionLayerFailSafeReader<'a, R> {
                 mut uncompressed_read,
                 mut inner,
             } => {
+                let mut inner_eof = false;
                 let ret = loop {
                     if uncompressed_read > UNCOMPRESSED_DATA_SIZE {
                         return Err(Error::WrongReaderState(
@@ -904,15 +905,13 @@ impl<'a, R: 'a + Read> Read for CompressionLayerFailSafeReader<'a, R> {
                             if read == 0 && read_offset == cache_filled_offset {
                                 // No more data from inner and the cache has been fully read
                                 // -> return either an error or Ok(0)
-                                if uncompressed_read > 0 {
-                                    // Inside a stream and no more data available
-                                    return Err(io::Error::new(
-                                        io::ErrorKind::UnexpectedEof,
-                                        "No more data from the inner layer",
-                                    ));
+                                if uncompressed_read == 0 {
+                                    // No more data available but not in a stream
+                                    return Ok(0);
                                 }
-                                // No more data available but not in a stream
-                                return Ok(0);
+                                // Inside a stream and no more data available: the
+                                // decoder may still hold already decoded bytes
+                                inner_eof = true;
                             }
                             cache_filled_offset += read;
                         }
@@ -985,6 +984,12 @@ impl<'a, R: 'a + Read> Read for CompressionLayerFailSafeReader<'a, R> {
                             })?;
 
                             if output_offset == 0 && !buf.is_empty() {
+                                if inner_eof {
+                                    return Err(io::Error::new(
+                                        io::ErrorKind::UnexpectedEof,
+                                        "No more data from the inner layer",
+                                    ));
+                                }
                                 // Not enough input to produce a byte yet: fetch more,
                                 // `Ok(0)` would mean end of data
                                 continue;
